@@ -70,7 +70,7 @@ static void check_set(int m, const char *pfx,
 static void tables_in_use(int order, int mf, unsigned k, rng_t *r)
 {
 	if (!rep_case("tables-in-use field=%d selection-order=%d k=%u n=15", mf, order, k)) return;
-	unsigned n = 15, L = 7 + 8 * (k % 4); int other = mf == 4 ? 8 : 4; char key[96];
+	unsigned n = 15, L = 7 + 8 * (k % 4) + (order == 0 ? 0 : 0); int other = mf == 4 ? 8 : 4; char key[96];
 	of_session_t *s = NULL; UINT16 fs; of_status_t st = OF_STATUS_OK;
 	of_rs_2_m_parameters_t prm; memset(&prm, 0, sizeof prm);
 	prm.nb_source_symbols = k; prm.nb_repair_symbols = n - k; prm.encoding_symbol_length = L;
@@ -164,7 +164,9 @@ int p_c14(void)
 	rep_unit(unit);
 	if (rep_unit_mine(unit)) {
 		rng_t r = rng_make(g_run.seed, 1400, 0);
-		for (int mf = 4; mf <= 8; mf += 4) for (int order = 0; order < 4; order++) for (unsigned k = 2; k <= 13; k += (k < 5 ? 1 : 4)) tables_in_use(order, mf, k, &r);
+		/* the two fields alternate on the same (k, n): whatever a session leaves behind for the next one is the other field's */
+		for (unsigned k = 2; k <= 13; k += (k < 5 ? 1 : 4)) for (int order = 0; order < 4; order++) for (int mf = 4; mf <= 8; mf += 4) tables_in_use(order, mf, k, &r);
+		for (unsigned k = 2; k <= 13; k += 3) for (int mf = 8; mf >= 4; mf -= 4) tables_in_use(0, mf, k, &r);
 	}
 	unit++;
 	return 0;
